@@ -77,13 +77,23 @@ func vhC37HostClient() {
 	var nmu sync.Mutex
 	delay := [...]time.Duration{0, 20 * time.Millisecond}[vChoose("serverDelay", 2)]
 	closeAfter := vBool("serverCloses")
+	slowClose := vBool("slowClose")
+	gap := [...]time.Duration{0, 15 * time.Millisecond}[vChoose("pauseBetweenCalls", 2)]
 	nw.onDial = func(k int, addr string) *vcConn {
-		c := &vcConn{delay: delay, afterEOF: 1}
+		c := &vcConn{afterEOF: 1}
+		if slowClose {
+			c.onClose = func() { time.Sleep(30 * time.Millisecond) } // closing takes a while
+		}
 		resp := "HTTP/1.1 200 OK\r\nContent-Length: 2\r\n\r\nhi"
 		if closeAfter {
 			resp = "HTTP/1.1 200 OK\r\nContent-Length: 2\r\nConnection: close\r\n\r\nhi"
 		}
-		c.more = func(c *vcConn) { c.segs = append(c.segs, []byte(resp)) }
+		c.more = func(c *vcConn) {
+			if delay > 0 {
+				time.Sleep(delay) // every response takes the server this long
+			}
+			c.segs = append(c.segs, []byte(resp))
+		}
 		return c
 	}
 	dial := func(addr string) (net.Conn, error) {
@@ -91,9 +101,10 @@ func vhC37HostClient() {
 		defer nmu.Unlock()
 		return nw.Dial(addr)
 	}
-	hc := &HostClient{Addr: "a.co:80", Dial: dial, MaxConns: 1 + vChoose("maxConns", 2), MaxConnWaitTimeout: 200 * time.Millisecond}
+	hc := &HostClient{Addr: "a.co:80", Dial: dial, MaxConns: 1 + vChoose("maxConns", 3), MaxConnWaitTimeout: 200 * time.Millisecond}
 	hc.MaxIdleConnDuration = 50 * time.Millisecond
 	K := 2 + vChoose("extraCaller", 2)
+	staggered := vBool("callersStartStaggered")
 	var wg sync.WaitGroup
 	var okCalls atomic.Int32
 	for i := 0; i < K; i++ {
@@ -104,10 +115,14 @@ func vhC37HostClient() {
 			var req Request
 			var resp Response
 			req.SetRequestURI("http://a.co/q" + string(rune('0'+i)))
+			if staggered {
+				time.Sleep(time.Duration(i) * 8 * time.Millisecond)
+			}
 			for r := 0; r < 2; r++ {
 				if err := hc.Do(&req, &resp); err == nil && resp.StatusCode() == 200 {
 					okCalls.Add(1)
 				}
+				time.Sleep(gap)
 			}
 		}()
 	}
@@ -117,7 +132,7 @@ func vhC37HostClient() {
 		_ = hc.ConnsCount()
 		_ = hc.PendingRequests()
 		_ = hc.LastUseTime()
-		time.Sleep(10 * time.Millisecond)
+		time.Sleep([...]time.Duration{2, 10, 25}[vChoose("closeIdleAt", 3)] * time.Millisecond)
 		hc.CloseIdleConnections()
 		_ = hc.ConnsCount()
 	}()
@@ -180,6 +195,7 @@ func vhC37FS() {
 	}}
 	// the fake file system is shared by the handler's goroutines: serialise it
 	locked := &c37LockedFS{inner: vf}
+	locked.openDelay = [...]time.Duration{0, 5 * time.Millisecond}[vChoose("openTakes", 2)]
 	stop := make(chan struct{})
 	fsys := &FS{FS: locked, Root: "r", AcceptByteRange: true, CacheDuration: 50 * time.Millisecond, CleanStop: stop}
 	fsys.SkipCache = vBool("skipCache")
@@ -274,8 +290,9 @@ func (b *c37Backend) PendingRequests() int { return int(b.pending.Load()) }
 // c37LockedFS serialises the recording file system (harness state shared by
 // the goroutines that call the handler).
 type c37LockedFS struct {
-	mu    sync.Mutex
-	inner *vfFS
+	mu        sync.Mutex
+	inner     *vfFS
+	openDelay time.Duration
 }
 
 type c37LockedFile struct {
@@ -284,6 +301,9 @@ type c37LockedFile struct {
 }
 
 func (l *c37LockedFS) Open(name string) (fs.File, error) {
+	if l.openDelay > 0 {
+		time.Sleep(l.openDelay) // two requests for one uncached file can both miss the cache
+	}
 	l.mu.Lock()
 	defer l.mu.Unlock()
 	f, err := l.inner.Open(name)
